@@ -1,0 +1,110 @@
+// Instrumentation for the verification machinery in /verif. This module is only compiled when the
+// `verif` feature is enabled, which the ordinary build and test suite never do. Every hook is the
+// identity unless a harness has installed an oracle on the current thread.
+#![allow(dead_code)]
+
+use std::{
+    cell::{Cell, RefCell},
+    collections::{BTreeSet, HashSet},
+};
+
+// H1: ownership of iteration order. An unordered container that is about to be iterated is handed to
+// `iteration_order`, which turns it into a sequence. For a hash set the order is a *choice point*:
+// the installed explorer decides which permutation is taken (ascending order when none is installed).
+// Ordered containers pass through unchanged, so code that iterates in a specified order has no choice
+// points.
+#[derive(Default)]
+pub struct OrderExplorer {
+    // Choices to replay (one permutation index per choice point); choice 0 is taken afterwards.
+    pub prefix: Vec<usize>,
+    // The arity (number of permutations) met at every choice point of this run.
+    pub arities: Vec<usize>,
+}
+
+thread_local! {
+    static ORDER_EXPLORER: RefCell<Option<OrderExplorer>> = const { RefCell::new(None) };
+    static HOLE_COPIES: Cell<u64> = const { Cell::new(0) };
+}
+
+pub fn install_order_explorer(prefix: Vec<usize>) {
+    ORDER_EXPLORER.with(|e| {
+        *e.borrow_mut() = Some(OrderExplorer {
+            prefix,
+            arities: vec![],
+        });
+    });
+}
+
+pub fn take_order_explorer() -> Option<OrderExplorer> {
+    ORDER_EXPLORER.with(|e| e.borrow_mut().take())
+}
+
+fn factorial(n: usize) -> usize {
+    (1..=n).product::<usize>().max(1)
+}
+
+// The `k`-th permutation (in lexicographic order) of an ascending sequence.
+fn permutation(mut items: Vec<usize>, mut k: usize) -> Vec<usize> {
+    let mut out = Vec::with_capacity(items.len());
+    while !items.is_empty() {
+        let block = factorial(items.len() - 1);
+        let i = (k / block).min(items.len() - 1);
+        k %= block;
+        out.push(items.remove(i));
+    }
+    out
+}
+
+pub trait IterationOrder {
+    type Sequence: IntoIterator<Item = usize>;
+    fn iteration_order(self) -> Self::Sequence;
+}
+
+impl IterationOrder for HashSet<usize> {
+    type Sequence = Vec<usize>;
+
+    fn iteration_order(self) -> Vec<usize> {
+        let mut items: Vec<usize> = self.into_iter().collect();
+        items.sort_unstable();
+
+        let choice = ORDER_EXPLORER.with(|e| {
+            e.borrow_mut().as_mut().map_or(0, |explorer| {
+                let position = explorer.arities.len();
+                explorer.arities.push(factorial(items.len()));
+                explorer.prefix.get(position).copied().unwrap_or(0)
+            })
+        });
+
+        permutation(items, choice)
+    }
+}
+
+impl IterationOrder for BTreeSet<usize> {
+    type Sequence = BTreeSet<usize>;
+
+    fn iteration_order(self) -> BTreeSet<usize> {
+        self
+    }
+}
+
+impl IterationOrder for Vec<usize> {
+    type Sequence = Vec<usize>;
+
+    fn iteration_order(self) -> Vec<usize> {
+        self
+    }
+}
+
+pub fn iteration_order<T: IterationOrder>(container: T) -> T::Sequence {
+    container.iteration_order()
+}
+
+// H2: a counter of the events in which `open` replaces an unresolved unifier by a fresh one. It never
+// influences any result.
+pub fn hole_copied() {
+    HOLE_COPIES.with(|c| c.set(c.get() + 1));
+}
+
+pub fn hole_copies() -> u64 {
+    HOLE_COPIES.with(Cell::get)
+}
